@@ -88,6 +88,8 @@ def _run_tasks(ctx, nproc, jobs, limits, attempts=3):
             job, att = pending.pop(0)
             a, b = ctx.Pipe(duplex=False)
             pr = ctx.Process(target=_child, args=(b, job))
+            # a restarted task gets another hash seed: the order in which facts reach z3 changes, and with it z3's luck
+            os.environ['PYTHONHASHSEED'] = str(att - 1)
             pr.start()
             b.close()
             running[job[1]] = (pr, a, time.time(), job, att)
